@@ -152,11 +152,12 @@ func sanitisedOnly(c *Ctx, pa *provAnalysis, fns []*ssa.Function, comp string) (
 }
 
 func checkC14(c *Ctx, r *Report) {
-	r.Rules = []string{"D8 version schema decision table", "D8 semver split: rewrite only on successful parse, explicit prerelease/metadata win", "F13 separator literals in templates, file names and formatters", "F13 prerelease sanitised for rpm and archlinux", "epoch syntax", "D8-order environment expansion precedes the defaults", "F13-width parsed components are not narrowed after the parse", "D8-verbatim the version field is never handed to a string-rewriting function in a packager", "lossless-F6-parsed no branch on a parsed epoch/release (imported from C02)", "D8-packager-store packagers only default-fill version components"}
+	r.Rules = []string{"D8 version schema decision table", "D8 semver split: rewrite only on successful parse, explicit prerelease/metadata win", "F13 separator literals in templates, file names and formatters", "F13 prerelease sanitised for rpm and archlinux", "epoch syntax", "D8-order environment expansion precedes the defaults", "F13-width parsed components are not narrowed after the parse", "D8-verbatim the version field is never handed to a string-rewriting function in a packager", "lossless-F6-parsed no branch on a parsed epoch/release (imported from C02)", "D8-packager-store packagers only default-fill version components", "lossless-F6 the rpm version keeps every configured component on every path (imported from C02)"}
 	r.Explanation = "Decision-table and literal-provenance rules. (D8) nfpm.WithDefaults is abstractly evaluated for version_schema in {none, semver, empty, anything else}: the semver split is dead for 'none' and live otherwise; inside the split the version is rewritten only on the success edge of the parse, from major/minor/patch alone, and prerelease and metadata are filled from the parsed version only behind an emptiness test of the same field (explicit values win; nothing is duplicated because the rewritten version carries no prerelease/metadata). (F13) in the deb and ipk control templates, in their conventional file names and in rpm's version formatter the literal immediately before the prerelease is '~' — the only character both dpkg and rpmvercmp order before the end of the string, so this literal is what makes every prerelease build sort before its release — metadata is introduced by '+', release by '-', the epoch is followed by ':' (deb/ipk) or goes to the numeric rpm epoch with its parse error returned; rpm and archlinux replace '-' by '_' in the prerelease. Concrete version comparison is not executed."
 	r.Explanation += " (D8-order) in the function that expands the configuration every WithDefaults call is dominated by the expansion. (F13-width) an epoch/release parsed with N bits is never converted to a narrower integer type."
 	r.Explanation += " (D8-verbatim) in every packager each load of Info.Version reaches, through phis and conversions, only formatting, concatenation, comparison and module functions - no strings/bytes/regexp/path rewriting call. (lossless-F6-parsed) imported from C02."
 	r.Explanation += " (D8-packager-store) every store to Info.Version/Prerelease/VersionMetadata/Release/Epoch in a packager package is a constant behind an emptiness test of the same component, or the defaulting helper on the same component."
+	r.Explanation += " (lossless-F6) imported from C02 for the rpm rows."
 	r.Assumptions = []string{
 		"Masterminds/semver accepts the documented grammar (v-prefix, fewer than three parts) and Prerelease()/Metadata() return the parsed components",
 		"dpkg and rpm order '~' before anything including the end of the string (their documented comparison algorithms)",
@@ -578,6 +579,9 @@ func checkVersionLines(c *Ctx, r *Report) {
 	}
 	r.Floor("F13-plain", n, 2)
 	r.Floor("lossless-F6-parsed", importRules(c, r, checkC02, "lossless-", []string{"F6-parsed"}, nil), 3)
+	// the rpm version keeps every configured component on every path (rule of
+	// C02; the archlinux rows carry that property's known finding and stay there)
+	r.Floor("lossless-F6", importRules(c, r, checkC02, "lossless-", []string{"F6"}, func(o Obligation) bool { return strings.HasPrefix(o.Construct, "rpm") }), 2)
 	checkVersionVerbatim(c, r)
 	checkPackagerKeepsComponents(c, r)
 	r.Floor("lossless-F3", importRules(c, r, checkC02, "lossless-", []string{"F3"}, func(o Obligation) bool {
